@@ -75,8 +75,30 @@ WhyDelta(c) ==
             \E d \in 1..Len(c.obs.delta[r][k]) : c.obs.delta[r][k][d] # 0 THEN "delta-nonzero"
   ELSE "ok"
 
+\* ---- kind "stages": StageDay events recorded by the verif hook in Journal.Process of the real
+\* run (after each processor finished a day, before the day is handed on).  Amounts are canonical
+\* strings (qa / va = absolute value, qsg / vsg = sign), so any magnitude can be compared.
+\* ev = [stage, of, d, trx : Seq(Seq(posting))]
+PairsOK(t) == /\ Len(t) % 2 = 0
+              /\ \A n \in 1..(Len(t) \div 2) :
+                    LET x == t[2 * n - 1]  y == t[2 * n] IN
+                    /\ x.c = y.c /\ x.a = y.o /\ x.o = y.a
+                    /\ x.qa = y.qa /\ x.qsg = -y.qsg
+                    /\ x.va = y.va /\ x.vsg = -y.vsg
+Bookings(t) == [n \in 1..Len(t) |-> [a |-> t[n].a, o |-> t[n].o, c |-> t[n].c, qa |-> t[n].qa, qsg |-> t[n].qsg]]
+IsPrefixSeq(p, q) == Len(p) <= Len(q) /\ \A n \in 1..Len(p) : p[n] = q[n]
+WhyStages(c) ==
+  LET ev == c.events IN
+  IF \E n \in 1..Len(ev) : \E m \in 1..Len(ev[n].trx) : ~PairsOK(ev[n].trx[m]) THEN "a-transaction-is-not-exact-negative-pairs-after-some-stage"
+  \* a later stage only appends transactions to a day (or clears the day: window filter); it never alters a booking
+  ELSE IF \E n, k \in 1..Len(ev) : ev[n].d = ev[k].d /\ ev[k].stage = ev[n].stage + 1 /\ ev[k].trx # << >> /\ ~ev[k].sorted
+            /\ ~IsPrefixSeq([m \in 1..Len(ev[n].trx) |-> Bookings(ev[n].trx[m])], [m \in 1..Len(ev[k].trx) |-> Bookings(ev[k].trx[m])])
+       THEN "a-stage-dropped-or-altered-a-booking"
+  ELSE "ok"
+
 Why(c) ==
   CASE c.kind = "check" -> WhyCheck(c)
+    [] c.kind = "stages" -> WhyStages(c)
     [] c.kind = "delta" -> WhyDelta(c)
     [] c.kind = "balance" -> WhyBalance(c)
 
